@@ -22,6 +22,7 @@ pub struct RecView {
     pub sec: u8,
     pub owner: Name,
     pub rtype: RecordType,
+    pub class: u16,
     pub rdata: Vec<u8>,
     pub proof: Proof,
     /// for RRSIG records: (type covered, signer)
@@ -46,6 +47,7 @@ fn view(sec: u8, r: &Record) -> RecView {
         sec,
         owner: r.name.clone(),
         rtype: r.record_type(),
+        class: u16::from(r.dns_class),
         rdata: rdata_bytes(r),
         proof: r.proof,
         sig: match &r.data {
@@ -170,6 +172,14 @@ pub fn judge(hier: &Hier, q: &(Name, RecordType), honest_answer: &Message, out: 
             .unwrap_or(&cand[0]);
         let pz_origin = &hier.h.zones[pz].origin;
         match r.proof {
+            Proof::Secure if r.class != 1 => {
+                // every published zone is class IN: a record of another class is no member of
+                // any RRset a signature of these zones speaks for
+                j.findings.push(Finding {
+                    clause: format!("secure-record-of-foreign-class:{sec_name}"),
+                    what: format!("{} {} with class {} returned Secure; the published zones are class IN", r.owner, r.rtype, r.class),
+                });
+            }
             Proof::Secure => {
                 if r.sec == 0 {
                     classes.push("secure");
